@@ -69,7 +69,8 @@ func (v *Vue) evalAttributes(ctx VueContext, n *html.Node) (map[string]any, erro
 			var err error
 			if key == "data-v-html-content" || key == "data-v-text-content" {
 				// internal content attributes hold evaluated data, never template code
-				newAttrs = append(newAttrs, html.Attribute{Key: key, Val: val})
+				// (white space at its ends is dropped, a no-break space is content)
+				newAttrs = append(newAttrs, html.Attribute{Key: key, Val: strings.Trim(a.Val, " \t\n\r\f")})
 				continue
 			}
 			// Static (and bracketed) attributes keep their value as written,
